@@ -5,6 +5,7 @@ from .. import env  # noqa: F401
 from ..core import Phase, Result
 from .. import grammar as G
 from .. import reference as R
+from ..represent import Rep, tapes, cycle_tape
 from ..util import attempt
 
 import fsic
@@ -76,7 +77,9 @@ def check_case(case):
         return res
     symbols = parsed.value
     kw = {k: v for k, v in opts.items() if v is not None}
-    built = attempt(fsic.build_model, symbols, **kw)
+    rep = Rep(case.get('rep'))          # the same lengths as NumPy integers
+    built = attempt(fsic.build_model, symbols, **{k: rep.int(v) for k, v in kw.items()})
+    rep.tag(res)
     if not built.ok:
         res.fail(f'build-failed/{built.exc_name}', f'{text!r} {kw}: {built!r}')
         return res
@@ -206,6 +209,7 @@ def accept_cases(named):
             'tape': G.tapes(10),
             'opts': st.tuples(side, side2).map(lambda ab: {**ab[0], **ab[1]}),
             'extra': st.integers(0, 3),
+            'rep': tapes(4),
         })
     return make
 
@@ -217,7 +221,7 @@ def gen_enumerated(max_nodes):
                   {'lags': 1, 'min_lags': 3}, {'leads': 0, 'min_leads': 2}, {'lags': 3, 'min_lags': 1},
                   {'lags': 0, 'min_lags': 1, 'leads': 2, 'min_leads': 3}]
         for i, prog in enumerate(G.enumerate_programs(max_nodes)):
-            yield {'prog': prog, 'tape': [], 'opts': combos[i % len(combos)], 'extra': i % 3}
+            yield {'prog': prog, 'tape': [], 'opts': combos[i % len(combos)], 'extra': i % 3, 'rep': cycle_tape(i)}
     return gen
 
 
